@@ -633,6 +633,23 @@ class ExprMixin:
         return list(raises) + [Out("val", s, Val(tup=vals)) for s, vals in res]
 
     def ev_List(self, node, st):
+        if any(isinstance(e, ast.Starred) for e in node.elts):
+            # [a, *xs, b] == [a] + list(xs) + [b]
+            res, raises = self.ev_list([e.value if isinstance(e, ast.Starred) else e for e in node.elts], st)
+            outs = list(raises)
+            for s, vals in res:
+                acc, run = None, []
+                for e, v in zip(node.elts, vals):
+                    if isinstance(e, ast.Starred):
+                        part = self.new_list(s, run)
+                        acc = part if acc is None else self.list_concat(s, acc, part)
+                        acc = self.list_concat(s, acc, self.to_list(s, v, node))
+                        run = []
+                    else:
+                        run.append(v)
+                acc = self.list_concat(s, acc, self.new_list(s, run)) if run else acc
+                outs.append(Out("val", s, acc))
+            return outs
         res, raises = self.ev_list(list(node.elts), st)
         outs = list(raises)
         for s, vals in res:
